@@ -29,7 +29,17 @@ def register(M):
         loc = st.fork()
         for a, v in zip(lam.args.args, vs):
             loc.env[a.arg] = v
-        val = ex.ev(lam.body, loc)
+        ex.bound_stack.extend(vs)
+        try:
+            val = ex.ev(lam.body, loc)
+        finally:
+            del ex.bound_stack[-len(vs):]
+        from .npmodel2 import free_consts
+        bound_ids = {v.get_id() for v in vs}
+        for f in loc.pc[len(st.pc):]:
+            if not any(c.get_id() in bound_ids for c in free_consts(f)):
+                st.pc.append(f)
+        st.ghost = loc.ghost
         kind = 'bool' if is_bool(val) else ('int' if is_int(val) else 'float')
         kw = {k.arg: k.value for k in e.keywords}
         if 'kind' in kw:
@@ -46,6 +56,25 @@ def register(M):
         val = ex.snapshot(ex.ev(lam.body, loc), loc)
         return st.alloc(SList(n, lambda k: subst(val, [(v, k)]), type_of(val)))
     SF['list_of'] = sf_list_of
+
+    def sf_count(e, st):
+        """count(n, lambda i: pred) / count(n, m, lambda i, j: pred): number of positions of the box satisfying pred"""
+        from .npmodel2 import count_instance, free_consts
+        dims = [num(ex.ev(a, st)) for a in e.args[:-1]]
+        lam = e.args[-1]
+        vs = [bvar(a.arg) for a in lam.args.args]
+        loc = st.fork()
+        for a, v in zip(lam.args.args, vs):
+            loc.env[a.arg] = v
+        val = Z(ex.truth(ex.ev(lam.body, loc), loc))
+        fc = free_consts(val)
+        for d in dims:
+            fc |= free_consts(d) if is_z3(d) else set()
+        ps = [b for b in ex.bound_stack if any(b.eq(c) for c in fc)]
+        f = count_instance(M, st, ps, lambda pv, ix: subst(val, list(zip(ps, pv)) + list(zip(vs, ix))),
+                           lambda pv: [subst(d, list(zip(ps, pv))) if is_z3(d) else d for d in dims], 'count')
+        return f(*ps)
+    SF['count'] = sf_count
 
     def b_card_le(args, kw, st, node):
         raise Unsupported('card_le')
@@ -71,6 +100,17 @@ def register(M):
         box = AND(*[in_range(v, 0, d) for v, d in zip(vs, a.shape)])
         return AND(M.shape_eq(a.shape, b.shape), forall(vs, IMPLIES(box, EQ(num(a.get(*vs)), num(b.get(*vs))))))
     B['same_array'] = b_same_array
+
+    def b_defines(args, kw, st, node):
+        a, b = st.deref(args[0]), st.deref(args[1])
+        if isinstance(a, SArr) or isinstance(b, SArr):
+            return b_same_array(args, kw, st, node)
+        if isinstance(a, SList) and isinstance(b, SList):
+            return ex.list_eq(a, b)
+        if isinstance(a, SSet) and isinstance(b, SSet):
+            return set_eq(a, b)
+        return EQ(a, b)
+    B['defines'] = b_defines
 
     def b_kind(args, kw, st, node):
         a = M.as_arr(st, args[0])
